@@ -345,6 +345,14 @@ def main():
                        'searched': '%d cases x hash seeds %s, no disagreement between implementation and model' % (len(cases), seeds)}, f, indent=1)
         replay_paths.append(rp)
 
+    # --- thorough tier: independent re-check of the compiled property library with coqchk (prints the axioms it relies on)
+    coqchk_summary = None
+    if tier == 'thorough' and okp and os.environ.get('VERIF_NO_COQCHK') != '1':
+        rc_chk, out_chk = sh(['timeout', '1800', 'coqchk', '-silent', '-o', '-Q', os.path.join(COQ, 'theories'), 'GT', 'GT.Properties.%s' % prop])
+        tail = out_chk.strip().split('\n')[-25:]
+        coqchk_summary = {'exit': rc_chk, 'tail': tail}
+        if rc_chk != 0:
+            proofs_ok = False
     # --- evidence
     keys = set()
     nontriv = 0
@@ -365,7 +373,7 @@ def main():
             'theorems': theorems, 'partial_statements': [t for t in theorems if t.endswith('_partial')],
             'checker_cmd': 'make -C coq -f Makefile.coq theories/Properties/%s.vo && coqc Properties/%s.v (Print Assumptions) && coqc cases_*.v (vm_compute judge)' % (prop, prop),
             'trusted_base': TRUSTED_BASE + getattr(mod, 'TRUSTED_EXTRA', []),
-            'print_assumptions': pa, 'forbidden_tokens_found': bad,
+            'print_assumptions': pa, 'forbidden_tokens_found': bad, 'coqchk': coqchk_summary,
             'evaluations': len(cases) * len(seeds), 'distinct_nontrivial': nontriv,
             'rule': mod.RULE, 'hashseeds': seeds, 'corpus_cases': len(corpus),
             'structural_layer_only_mismatches': struct_only,
